@@ -34,6 +34,7 @@ HB_INTERVAL = 1.0
 WATCHDOG = 3000.0  # virtual seconds without completion => the stream is pending
 SERVE_WAIT = 600.0
 STALL = 20.0  # virtual seconds without new body bytes => a scripted drop fires now
+GROW_AT = 5.0  # virtual seconds after a connection is opened at which its scripted mid-connection appends happen
 
 _mods: dict[str, Any] = {}
 
@@ -63,6 +64,10 @@ def envelope_of(ev: dict) -> Any:
         return E.from_event(m["events"].StopEvent(result={"k": ev["k"], key: ev["msg"]}))
     if ev["kind"] == "ev":
         return E.from_event(m["events"].Event(**{"k": ev["k"], key: ev["msg"]}))
+    if ev["kind"] == "internal":
+        # a real InternalDispatchEvent subclass; the fields carry k and msg so that payloads stay distinct
+        return E.from_event(m["events"].UnhandledEvent(event_type=f"E{ev['k']}", qualified_name=ev["msg"], step_name=ev.get("key"),
+                                                       idle=bool(ev["k"] % 2)))
     # hand-built envelope (arbitrary type names)
     return E(value={"k": ev["k"], key: ev["msg"]}, qualified_name=ev.get("qn"), type=ev.get("type", "Custom"),
              types=ev.get("types"))
@@ -71,6 +76,18 @@ def envelope_of(ev: dict) -> Any:
 def payload_of(ev: dict) -> str:
     """The JSON text `_stream_events` puts after `data: ` (same real method call)."""
     return envelope_of(ev).model_dump_json()
+
+
+def is_internal(ev: dict) -> bool:
+    """The event is an `InternalDispatchEvent` (real class check for real events; for hand-built
+    envelopes: the class name is the envelope's type or among its `types`)."""
+    m = mods()
+    if ev["kind"] == "internal":
+        return issubclass(m["events"].UnhandledEvent, m["events"].InternalDispatchEvent)
+    if ev["kind"] == "custom":
+        name = m["events"].InternalDispatchEvent.__name__
+        return ev.get("type") == name or name in (ev.get("types") or [])
+    return False
 
 
 def is_terminal(ev: dict) -> bool:
@@ -110,8 +127,56 @@ def make_store(case: dict) -> Any:
     for ev in case["events"]:
         evs.append(m["abs"].StoredEvent(run_id=RUN, sequence=ev["seq"], timestamp=datetime.now(timezone.utc),
                                         event=envelope_of(ev)))
-    store.events[RUN] = evs
+    store.all_events = evs
+    # a growing log ("vis" on the connections): the transport reveals the events step by step
+    store.events[RUN] = [] if case.get("live") else evs
+    if case.get("live"):
+        store.final_status = case.get("status", "running")
+        store.handlers[HANDLER] = store.handlers[HANDLER].model_copy(update={"status": "running"})
     return store
+
+
+async def reveal(store: Any, upto: int) -> None:
+    """The run has appended its events up to index `upto` (monotone, idempotent); the handler's
+    persisted status becomes the scripted final one together with the last event."""
+    allev = store.all_events
+    cur = store.events.get(RUN, [])
+    if upto > len(cur):
+        cur.extend(allev[len(cur):upto])
+        store.events[RUN] = cur
+    if len(cur) >= len(allev) and store.handlers[HANDLER].status != store.final_status:
+        store.handlers[HANDLER] = store.handlers[HANDLER].model_copy(update={"status": store.final_status})
+    cond = store._conditions.get(RUN)
+    if cond is not None:
+        async with cond:
+            cond.notify_all()
+
+
+def pauses_for(case: dict, cursor: Any, hb_counts: list[int]) -> list[float]:
+    """Virtual-time pauses before the events `subscribe_events` will yield after `cursor`, such that
+    `hb_counts[i]` heartbeat comments appear before the i-th *frame*: events the include_internal
+    flag hides produce no frame and get no pause."""
+    hb = case.get("hb")
+    if not hb:
+        return []
+    dur = [(c * hb + hb / 2) if c else 0.0 for c in hb_counts]
+    if case.get("incl", True) or not any(is_internal(e) for e in case["events"]):
+        return dur
+    try:
+        cur = int(cursor)
+    except (TypeError, ValueError):
+        return dur
+    res: list[float] = []
+    k = 0
+    for e in case["events"]:
+        if e["seq"] <= cur:
+            continue
+        if is_internal(e):
+            res.append(0.0)
+        else:
+            res.append(dur[k] if k < len(dur) else 0.0)
+            k += 1
+    return res
 
 
 def make_api(store: Any, hb: float | None) -> Any:
@@ -133,9 +198,10 @@ async def serve_body(case: dict, cursor: str, hb_counts: list[int]) -> tuple[int
     body produced so far."""
     store = make_store(case)
     hb = case.get("hb")
-    store.pauses = [(c * hb + hb / 2) if (hb and c) else 0.0 for c in hb_counts]
+    store.pauses = pauses_for(case, cursor, hb_counts)
     api = make_api(store, hb)
-    req = FakeRequest({"handler_id": HANDLER}, {"sse": "true", "after_sequence": cursor, "include_internal": "false"}, {})
+    req = FakeRequest({"handler_id": HANDLER}, {"sse": "true", "after_sequence": cursor,
+                                                "include_internal": "true" if case.get("incl") else "false"}, {})
     exc_t = mods()["api"].HTTPException
     try:
         resp = await api._stream_events(req)
@@ -300,6 +366,7 @@ class ScriptedTransport(httpx.AsyncBaseTransport):
         self.i = 0
         self.requests: list[dict] = []
         self.records: list[dict] = []
+        self.growers: list[Any] = []
 
     async def handle_async_request(self, request: httpx.Request) -> httpx.Response:
         conns = self.case["conns"]
@@ -310,6 +377,8 @@ class ScriptedTransport(httpx.AsyncBaseTransport):
         self.requests.append(params)
         self.records.append(rec)
         fault = conn.get("f", "none")
+        if self.case.get("live") and "vis" in conn and self.store is not None:
+            await reveal(self.store, int(conn["vis"]))
         if fault == "refuse":
             raise httpx.ConnectError("scripted refusal", request=request)
         if fault == "tconn":
@@ -321,8 +390,7 @@ class ScriptedTransport(httpx.AsyncBaseTransport):
                 return httpx.Response(int(conn["status"]), content=b'{"detail":"scripted"}', request=request)
             return httpx.Response(200, headers={"content-type": "text/event-stream; charset=utf-8"},
                                   stream=RawStream(conn["body"].encode("utf-8"), conn, request), request=request)
-        hb = self.case.get("hb")
-        self.store.pauses = [(c * hb + hb / 2) if (hb and c) else 0.0 for c in conn.get("hb", [])]
+        self.store.pauses = pauses_for(self.case, params.get("after_sequence"), conn.get("hb", []))
         req = FakeRequest({"handler_id": request.url.path.rsplit("/", 1)[-1]}, params, dict(request.headers))
         exc_t = mods()["api"].HTTPException
         try:
@@ -331,6 +399,12 @@ class ScriptedTransport(httpx.AsyncBaseTransport):
             rec["status"] = int(e.status_code)
             return httpx.Response(int(e.status_code), content=b'{"detail":"x"}', request=request)
         rec["status"] = 200
+        if self.case.get("live") and conn.get("vis2") is not None:
+            async def grow(upto: int = int(conn["vis2"])) -> None:
+                await asyncio.sleep(GROW_AT)
+                await reveal(self.store, upto)
+
+            self.growers.append(asyncio.ensure_future(grow()))
         media = getattr(resp, "media_type", None) or "text/event-stream"
         return httpx.Response(200, headers={"content-type": f"{media}; charset=utf-8"},
                               stream=CutStream(resp.body_iterator, conn, request, rec), request=request)
@@ -371,6 +445,8 @@ def run_real(case: dict) -> dict:
             kwargs["after_sequence"] = case["c0"]
         if case["max"] != "D":
             kwargs["max_reconnect_attempts"] = case["max"]
+        if "incl" in case:
+            kwargs["include_internal_events"] = bool(case["incl"])
         stream = client.get_workflow_events(HANDLER, **kwargs)
         obs: dict = {"yielded": [], "res": None, "initial_last": stream.last_sequence}
 
@@ -396,6 +472,9 @@ def run_real(case: dict) -> dict:
         except BaseException:  # noqa: BLE001
             pass
         await hc.aclose()
+        for g in transport.growers:
+            g.cancel()
+        await asyncio.gather(*transport.growers, return_exceptions=True)
         obs["reqs"] = [r.get("after_sequence") for r in transport.requests]
         obs["records"] = transport.records
         obs["params"] = transport.requests[:1]
@@ -407,5 +486,37 @@ def run_real(case: dict) -> dict:
 def run_serve(case: dict, cursor: str, hb_counts: list[int]) -> tuple[int, str | None, bool]:
     async def main(_loop: Any) -> tuple[int, str | None, bool]:
         return await serve_body(case, cursor, hb_counts)
+
+    return vloop.run_virtual(main, max_time=None)
+
+
+# --------------------------------------------------------------------------
+# the client's line iterator alone
+
+
+def run_iter_lines(chunks: list[str], eof: bool) -> str:
+    """What the real `_iter_sse_lines` yields for a response whose decoded text arrives in `chunks`;
+    `eof=False`: `aiter_text` raises `httpx.ReadError` after the last chunk."""
+    m = mods()
+
+    class FakeResponse:
+        async def aiter_text(self):  # noqa: ANN202
+            for c in chunks:
+                yield c
+                await asyncio.sleep(0)
+            if not eof:
+                raise httpx.ReadError("scripted drop")
+
+    async def main(_loop: Any) -> str:
+        got: list[str] = []
+        try:
+            async for line in m["client"]._iter_sse_lines(FakeResponse()):
+                got.append(line)
+        except httpx.ReadError:
+            if eof:
+                return "error:ReadError"
+        except Exception as e:  # noqa: BLE001
+            return "error:" + type(e).__name__
+        return f"n={len(got)} " + ";".join("l" + ",".join(str(ord(ch)) for ch in line) for line in got)
 
     return vloop.run_virtual(main, max_time=None)
